@@ -4,6 +4,7 @@ EXTRACT = [{"group": "disp", "passes": ["dispconsts", "mintcallers", "disphooks"
 FAMILIES = [
     {"name": "mint", "family": "mint", "group": "disp", "driver": "drv_issue", "n_quick": 6000, "n_thorough": 60000, "seeds_thorough": 3},
     {"name": "dispmsgs", "family": "disp", "group": "disp", "driver": "drv_disp", "n_quick": 600, "n_thorough": 6000, "seeds_thorough": 2},
+    {"name": "bridgecredit", "family": "bridgecredit", "group": "disp", "driver": "drv_issue", "n_quick": 1500, "n_thorough": 15000, "seeds_thorough": 3},
     {"name": "restart", "family": "restart", "group": "disp", "driver": "drv_issue", "n_quick": 400, "n_thorough": 4000, "seeds_thorough": 3},
     {"name": "rwedits", "family": "rwedits", "group": "disp", "driver": "drv_issue", "n_quick": 3000, "n_thorough": 30000, "seeds_thorough": 4},
     {"name": "rewards", "family": "rewards", "group": "disp", "driver": "drv_issue", "n_quick": 6000, "n_thorough": 60000, "seeds_thorough": 4},
@@ -30,6 +31,11 @@ RULE = ("mint: real dispensation BeginBlocker on the real keeper/bank, block his
         "an upgrade with no version change / two upgrades; the plan is scheduled with UpgradeKeeper.ScheduleUpgrade two blocks ahead, at the upgrade height the app is "
         "re-opened from its DB as the new release (version.Version = plan name, so the app's own SetupHandlers registers the RunMigrations handler) and the x/upgrade "
         "BeginBlocker applies it; judged: per-block mint step across the upgrade block (tag app.upgrade.mint-state-preserved) and counter = initial + created <= cap after every block. "
+        "bridgecredit: block histories (dispensation BeginBlocker, messages on a CacheContext, clp EndBlocker with a reward period) with ethbridge claims through the real "
+        "handler by 2-4 bonded whitelisted validators (powers 40/40/20, 34/33/33, 25x4, 60/30/10, 70/20/10, 50/50; sometimes one not whitelisted) on 2-5 events (burn of rowan, "
+        "lock of eth, lock of a token called rowan): first witnesses, the witness reaching consensus, late witnesses, duplicates while pending, conflicting amounts, and identical "
+        "claims re-sent after finalisation (a third of all claims); judged per transaction (rowan created only by the claim that takes its prophecy from not-final to SUCCESS, "
+        "exactly the credited amount) and after every block (supply delta = counter delta + rewards created + approved credits read back from the oracle keeper, each prophecy once). "
         "non-trivial = a block that created coins / an accepted message")
 TRUSTED_BASE = [
     "Lean 4.33.0 kernel; axioms propext, Classical.choice, Quot.sound (audited per theorem on every run)",
@@ -48,6 +54,7 @@ ASSUMPTIONS = [
     "cosmos x/mint (SDK inflation module, also wired into the app) is outside /repo/x and /repo/app and not covered by cap_const; the envelope excludes a token registry that aliases a foreign voucher to rowan (ibctransfer helper)",
 ]
 UNPROVED = [
+    "bridge credits: whether consensus is reached (the oracle's threshold, whitelist, duplicate and conflicting-claim logic) is C05/C06 and enters the C20 model as environment values; the C20 theorem (bridge_credit_once) is about the rule that a finalised prophecy is never credited again, tied by the bridgecredit family.",
     "'every rewarded coin ends up in a pool or a provider's account': not proved here (needs the clp pool/provider model: C01/C18); the model proves net created <= block distribution and the harness observes only the net supply change.",
     "the `_partial` theorems (rewards_per_block/_per_period on fixed non-overlapping schedules; rewards_*_edits_partial under cleanSwitches) are about the model of the tree with only F10 repaired and are kept with their hypotheses and the decide'd witnesses overlap_residual / edit_midflight_residual; the claims for the current tree are rewards_per_block_all_histories / rewards_per_period_all_histories (no hypothesis on switching). The cumulative clause (rewards_entitlement) is stated for the F10-level model on a fixed list only.",
     "cap_const is a syntactic call-site fact (go/ast): an indirect mint through a new wrapper defined outside x/ and app/, or through reflection, is not seen. The dynamic side (messages_create_nothing + supply check on every dispensation message) covers the dispensation messages only; admin messages of other modules are C08/C10.",
